@@ -364,9 +364,22 @@ func Drive(o DriveOpts) int {
 			continue
 		}
 		// a violation the known-findings file does not list
+		// the replay file must reproduce the violation in a fresh process before it is reported; an
+		// occurrence whose replay does not (seen with the race detector, whose bounded access
+		// history makes a report depend on more than the schedule) is passed over for the next one
 		v := bySig[s][0]
-		path := writeReplay(o, p, v, len(newViol) < 2)
-		ok := verifyReplay(o, path, s)
+		var path string
+		ok := false
+		for i := 0; i < len(bySig[s]) && i < 4 && !ok; i++ {
+			if path != "" {
+				os.Remove(path)
+			}
+			v = bySig[s][i]
+			path = writeReplay(o, p, v, len(newViol) < 2 && i == 0)
+			for try := 0; try < 3 && !ok; try++ {
+				ok = verifyReplay(o, path, s)
+			}
+		}
 		if !ok {
 			a.infra = append(a.infra, fmt.Sprintf("replay of %s did not reproduce signature %q", path, s))
 			continue
